@@ -4,6 +4,7 @@ package props
 
 import (
 	"bytes"
+	"encoding/binary"
 	"fmt"
 
 	"github.com/Eyevinn/mp4ff/bits"
@@ -400,6 +401,22 @@ func synthBox(t *sim.Tape, rnd *sim.Rand) []byte {
 		if tp := typedPayload(typ, t, rnd); tp != nil {
 			pl, n = tp, len(tp)
 		}
+	}
+	if t.Chance(50) {
+		// the 64-bit size form: correct size, or a size smaller than the 16-byte header / as if the header had 8 bytes
+		sz := uint64(16 + n)
+		switch t.Draw(4) {
+		case 1:
+			sz = uint64(8 + t.Draw(8))
+		case 2:
+			sz = uint64(8 + n)
+		}
+		out := make([]byte, 16+n)
+		out[3] = 1
+		copy(out[4:], typ)
+		binary.BigEndian.PutUint64(out[8:], sz)
+		copy(out[16:], pl)
+		return out
 	}
 	out := make([]byte, 8+n)
 	out[0], out[1], out[2], out[3] = byte((8+n)>>24), byte((8+n)>>16), byte((8+n)>>8), byte(8+n)
